@@ -58,7 +58,12 @@ fn main() {
     for h in handles {
         match h.join() {
             Ok(r) => total.merge(r),
-            Err(_) => thread_failures += 1,
+            Err(e) => {
+                let msg = e.downcast_ref::<String>().cloned().or_else(|| e.downcast_ref::<&str>().map(|s| s.to_string())).unwrap_or_default();
+                eprintln!("harness thread died: {}", msg);
+                total.note(&format!("harness thread died: {}", msg));
+                thread_failures += 1
+            }
         }
     }
     if thread_failures > 0 {
